@@ -871,16 +871,16 @@ class ktensor:
             # Need to flip signs in pairs. If we don't have an even number of
             # negative sign scores, then we need to decide to do one fewer or one
             # more.
-            if np.mod(breakpt + 1, 2) == 0:
-                endpt = breakpt + 1
+            # breakpt is the (0-based) position of the last negative score
+            nneg = breakpt + 1
+            if np.mod(nneg, 2) == 0:
+                endpt = nneg
             else:
                 warnings.warn(f"Trouble fixing signs for mode {r}")
-                if (breakpt < RB) and (
-                    -sort_sgn_score[breakpt] > sort_sgn_score[breakpt + 1]
-                ):
-                    endpt = breakpt + 1
+                if (nneg < N) and (-sort_sgn_score[nneg - 1] > sort_sgn_score[nneg]):
+                    endpt = nneg + 1
                 else:
-                    endpt = breakpt - 1
+                    endpt = nneg - 1
 
             # Flip the signs
             for i in range(endpt):
